@@ -167,6 +167,20 @@ add("C10", "E1",
     "known finding.",
     "DESIGN.md §4 C09/C10")
 
+add("C11", "E1",
+    "bounded-exhaustive enumeration of marked files, --lines strings and file variants; reference slice + differential oracle",
+    "(a) all files prologue (<= 2 decoy chunks) + start marker + body + end marker + epilogue over "
+    "8 decoys (genuine bytes after a mov to another register / of another value, marker mov + non-"
+    ".byte directive, truncated byte sequence, marker mov + instruction, comment, label) x 7 marker "
+    "styles (bytes on one/several lines, odd spacing, comment markers, only start, only end, none) x "
+    "3 bodies x 2 ISAs, reduce_to_section compared with the constructed slice; (b) every --lines "
+    "string of <= 3 items over numbers 1..6 (thorough 1..8) against a reference set; (c) marked / "
+    "--lines (incl. descending and overlapping pieces) / extracted-only / noise-line variants (comment, "
+    "label, directive, blank at every position) through osaca.run give identical per-instruction and "
+    "summary numbers (quick: zen1, n1; thorough: every shipped model).",
+    "Trusted: the file constructors in mc/checks/c11.py and the report parser mc/ref/report.py.",
+    "DESIGN.md §4 C11")
+
 NOT_YET = {}
 
 def main():
